@@ -321,7 +321,7 @@ impl StandardLibrary {
         );
 
         // Intentionally not a merge, didn't seem valuable
-        if !other.lua_versions.is_empty() {
+        if self.lua_versions.is_empty() {
             self.lua_versions = other.lua_versions;
         }
 
